@@ -56,7 +56,95 @@ def _subterms(fs):
     return seen.values()
 
 
+class Info(object):
+    __slots__ = ("f", "syms", "ints", "strs", "seq", "terms", "quant")
+
+
+_INFO = {}
+_SEQ_OPS = None
+
+
+def info(f):
+    """per-formula facts, computed once (formulas are shared by many obligations)"""
+    i = f.get_id()
+    r = _INFO.get(i)
+    if r is not None:
+        return r
+    global _SEQ_OPS
+    if _SEQ_OPS is None:
+        _SEQ_OPS = (z3.Z3_OP_SEQ_EXTRACT, z3.Z3_OP_SEQ_CONCAT, z3.Z3_OP_SEQ_CONTAINS, z3.Z3_OP_SEQ_PREFIX, z3.Z3_OP_SEQ_REPLACE, z3.Z3_OP_SEQ_AT, z3.Z3_OP_SEQ_INDEX)
+    r = Info()
+    r.f = f
+    r.syms = set()
+    r.ints = {}
+    r.strs = {}
+    r.seq = False
+    r.terms = {}  # ground ext(...) / ord(...) applications, for TERM_AXIOMS
+    r.quant = False
+    seen = set()
+    stack = [(f, False)]
+    while stack:
+        t, inq = stack.pop()
+        tid = t.get_id()
+        if (tid, inq) in seen:
+            continue
+        seen.add((tid, inq))
+        if z3.is_quantifier(t):
+            r.quant = True
+            stack.append((t.body(), True))
+            continue
+        if not z3.is_app(t):
+            continue
+        d = t.decl()
+        k = d.kind()
+        ch = t.children()
+        if k == z3.Z3_OP_UNINTERPRETED:
+            r.syms.add(d.name())
+            if not ch and d.name().startswith("lit_"):
+                r.terms[tid] = t
+        if k in _SEQ_OPS:
+            r.seq = True
+        if not inq:
+            if k in (z3.Z3_OP_SELECT, z3.Z3_OP_STORE):
+                idx = ch[1]
+                if idx.sort() == INT:
+                    r.ints[idx.get_id()] = idx
+            elif k == z3.Z3_OP_UNINTERPRETED and ch:
+                for a in ch:
+                    if a.sort() == INT:
+                        r.ints[a.get_id()] = a
+                nm = d.name()
+                if nm in TERM_FUNCS:
+                    r.terms[tid] = t
+            if t.sort() == BYTES and k in (z3.Z3_OP_UNINTERPRETED, z3.Z3_OP_SELECT, z3.Z3_OP_SEQ_CONCAT, z3.Z3_OP_SEQ_EXTRACT):
+                r.strs[tid] = t
+        for c in ch:
+            stack.append((c, inq))
+    _INFO[i] = r
+    return r
+
+
+def union_info(fs):
+    syms = set()
+    ints = {}
+    strs = {}
+    terms = {}
+    seq = False
+    for f in fs:
+        r = info(f)
+        ints.update(r.ints)
+        strs.update(r.strs)
+        terms.update(r.terms)
+        seq = seq or r.seq
+    return ints, strs, terms, seq
+
+
 def harvest(fs):
+    ints, strs, terms, seq = union_info(fs)
+    return list(ints.values()), list(strs.values())
+
+
+def harvest_old(fs):
     """index terms of array reads / uninterpreted applications of sort Int, and all
     String-sorted ground terms"""
     ints = {}
@@ -85,6 +173,9 @@ def _has_var(t):
     return False
 
 
+_INST_CACHE = {}
+
+
 def instantiate(qs, ints, strs, cap=6000):
     out = []
     for q in qs:
@@ -98,13 +189,22 @@ def instantiate(qs, ints, strs, cap=6000):
             total *= max(1, len(pl))
         if any(len(pl) == 0 for pl in pools) or total > cap:
             continue
+        qid = q.get_id()
+        body = None
         for tup in itertools.product(*pools):
-            out.append(z3.substitute_vars(q.body(), *reversed(tup)))
+            key = (qid,) + tuple(t.get_id() for t in tup)
+            r = _INST_CACHE.get(key)
+            if r is None:
+                if body is None:
+                    body = q.body()
+                r = z3.substitute_vars(body, *reversed(tup))
+                _INST_CACHE[key] = r
+            out.append(r)
     return out
 
 
 def ord_axioms(strs, formulas):
-    uses_ord = any(t.decl().name() == "ord" for t in _subterms(formulas) if z3.is_app(t) and not z3.is_quantifier(t))
+    uses_ord = any("ord" in info(f).syms for f in formulas)
     if not uses_ord:
         return []
     out = []
@@ -151,10 +251,7 @@ def cvc5_check(fs, timeout_ms, want_model=False):
 
 
 def uses_seq(fs):
-    for t in _subterms(fs):
-        if z3.is_app(t) and not z3.is_quantifier(t) and t.decl().kind() in (z3.Z3_OP_SEQ_EXTRACT, z3.Z3_OP_SEQ_CONCAT, z3.Z3_OP_SEQ_CONTAINS, z3.Z3_OP_SEQ_PREFIX, z3.Z3_OP_SEQ_REPLACE, z3.Z3_OP_SEQ_AT, z3.Z3_OP_SEQ_INDEX):
-            return True
-    return False
+    return any(info(f).seq for f in fs)
 
 
 def check(fs, timeout_ms, **opts):
@@ -169,20 +266,41 @@ def check(fs, timeout_ms, **opts):
     return r, s, dt
 
 
+TERM_FUNCS = {"ext", "ord", "cat", "blen"}  # applications of these are collected for TERM_AXIOMS
 TERM_AXIOMS = []  # callables: iterable of ground subterms -> list of facts (theory lemmas on demand)
 
 
 def symbols(f):
-    out = set()
-    for t in _subterms([f]):
-        if z3.is_quantifier(t):
-            out |= symbols(t.body())
-        elif z3.is_app(t) and t.decl().kind() == z3.Z3_OP_UNINTERPRETED:
-            out.add(t.decl().name())
+    return info(f).syms
+
+
+GLOBAL_SYMBOLS = {"AL", "AL16", "ord", "NEG", "POS", "ext", "parentp", "lastk", "ROOTP", "cat", "blen"}
+
+
+def _abstract_bytes_axioms(terms):
+    """laws of the abstract byte-string sort, instantiated on the terms present"""
+    from .sym import ABSTRACT_BYTES, BLEN, CAT
+
+    out = []
+    lits = []
+    for t in terms:
+        nm = t.decl().name()
+        if nm == "cat":
+            a, b = t.arg(0), t.arg(1)
+            out.append(BLEN(t) == BLEN(a) + BLEN(b))
+            out.append(BLEN(a) >= 0)
+            out.append(BLEN(b) >= 0)
+            for x, y in ((a, b), (b, a)):
+                if z3.is_const(x) and x.decl().name() == "lit_":
+                    out.append(t == y)
+        elif nm == "blen":
+            out.append(t >= 0)
+        elif nm.startswith("lit_"):
+            lits.append(t)
+            out.append(BLEN(t) == len(nm[4:]) // 2)
+    for a, b in itertools.combinations(lits, 2):
+        out.append(a != b)
     return out
-
-
-GLOBAL_SYMBOLS = {"AL", "AL16", "ord", "NEG", "POS", "ext", "parentp", "lastk", "ROOTP"}
 
 
 def cone(prem, goal):
@@ -190,6 +308,8 @@ def cone(prem, goal):
     (dropping the others only removes premises: sound for proofs)"""
     full = [symbols(c) for c in prem]
     syms = [sy - GLOBAL_SYMBOLS for sy in full]
+    if not (symbols(goal) - GLOBAL_SYMBOLS):
+        return list(prem)  # e.g. the goal `False` (unreachability): everything matters
     cur = symbols(goal) - GLOBAL_SYMBOLS
     gl = symbols(goal) & GLOBAL_SYMBOLS
     keep = [False] * len(prem)
@@ -211,10 +331,24 @@ def cone(prem, goal):
 
 
 def term_axioms(fs):
+    from .sym import ABSTRACT_BYTES
+
     out = []
-    terms = list(_subterms(fs))
-    for gen in TERM_AXIOMS:
+    terms = {}
+    for f in fs:
+        terms.update(info(f).terms)
+    terms = list(terms.values())
+    gens = list(TERM_AXIOMS) + ([_abstract_bytes_axioms] if ABSTRACT_BYTES else [])
+    for gen in gens:
         out += gen(terms)
+    # the generated facts may mention new terms (e.g. blen(cat(..))): one more round
+    if out:
+        t2 = {}
+        for f in out:
+            t2.update(info(f).terms)
+        new = [t for i, t in t2.items() if i not in set(x.get_id() for x in terms)]
+        for gen in gens:
+            out += gen(new)
     return out
 
 
@@ -253,10 +387,13 @@ def discharge(premises, goal, timeout_ms=10000, hints=None):
         base = base + list(hints)
     ints, strs = harvest(base)
     inst = instantiate(quant, ints, strs)
+    # second round: terms created by the first-round instances, for the
+    # single-variable clauses only (keeps the instance count linear)
     ints2, strs2 = harvest(base + inst)
-    if len(ints2) <= 24 and (len(ints2) > len(ints) or len(strs2) > len(strs)):
-        inst = instantiate(quant, ints2, strs2)
-        ints, strs = ints2, strs2
+    if len(ints2) > len(ints) and len(ints2) <= 240:
+        new_ints = [t for t in ints2 if t.get_id() not in set(x.get_id() for x in ints)]
+        one = [q for q in quant if q.num_vars() == 1 and q.var_sort(0) == INT]
+        inst = inst + instantiate(one, new_ints, strs)
     fs = base + inst + ord_axioms(strs, base + inst)
     fs = fs + term_axioms(fs)
     seq = uses_seq(fs)
